@@ -11,6 +11,9 @@ package fosite
 //@ axiom sentinel-errors ErrInvalidRequest != nil && ErrInvalidRequest.ErrorField == "invalid_request" && ErrInvalidRequest.CodeField == 400 && ErrInvalidGrant != nil && ErrInvalidGrant.ErrorField == "invalid_grant" && ErrInvalidGrant.CodeField == 400 && ErrServerError != nil && ErrServerError.ErrorField == "server_error" && ErrServerError.CodeField == 500 && ErrNotFound != nil && ErrNotFound.ErrorField == "not_found" && ErrNotFound.CodeField == 404 && ErrUnknownRequest != nil && ErrUnknownRequest.ErrorField == "error" && ErrUnknownRequest.CodeField == 400 && ErrInvalidClient != nil && ErrInvalidClient.ErrorField == "invalid_client" && ErrInvalidClient.CodeField == 401 && ErrUnauthorizedClient != nil && ErrUnauthorizedClient.ErrorField == "unauthorized_client" && ErrUnauthorizedClient.CodeField == 400 && ErrInvalidScope != nil && ErrInvalidScope.ErrorField == "invalid_scope" && ErrInvalidScope.CodeField == 400 && ErrInactiveToken != nil && ErrInactiveToken.ErrorField == "token_inactive" && ErrInactiveToken.CodeField == 401 && ErrTokenExpired != nil && ErrTokenExpired.ErrorField == "invalid_token" && ErrSerializationFailure != nil && ErrSerializationFailure.ErrorField == "error" && ErrSerializationFailure.CodeField == 409 && ErrAccessDenied != nil && ErrAccessDenied.ErrorField == "access_denied" && ErrTemporarilyUnavailable != nil && ErrTemporarilyUnavailable.ErrorField == "temporarily_unavailable"
 //@ axiom sentinel-types typeis(ErrInvalidRequest, *RFC6749Error) && typeis(ErrInvalidGrant, *RFC6749Error) && typeis(ErrServerError, *RFC6749Error) && typeis(ErrNotFound, *RFC6749Error) && typeis(ErrUnknownRequest, *RFC6749Error) && typeis(ErrInvalidClient, *RFC6749Error) && typeis(ErrInactiveToken, *RFC6749Error) && typeis(ErrSerializationFailure, *RFC6749Error)
 
+// errors.As finds an *RFC6749Error itself first.
+//@ axiom ehead-self forall e V :: typeis(e, *RFC6749Error) ==> ehead(e) == e
+
 //@ func (RFC6749Error).WithWrap
 //@   trusted
 //@   ensures result != nil && fresh(result) && typeis(result, *RFC6749Error)
@@ -127,3 +130,103 @@ package fosite
 //@   ensures [C12.default-audience-error-class] err != nil ==> ehead(err).ErrorField == "invalid_request"
 //@   invariant loop#1 [C12.default-audience-sound] $i <= len(needle) && (forall i int :: 0 <= i && i < $i ==> url_ok(needle[i]) && (exists j int :: 0 <= j && j < len(haystack) && matchAud(haystack[j], needle[i])))
 //@   invariant loop#2 [C12.default-audience-sound] $i#1 < len(needle) && n == needle[$i#1] && url_ok(n) && nu != nil && nu.Scheme == url_scheme(n) && nu.Host == url_host(n) && nu.Path == url_path(n) && $i <= len(haystack) && (forall j int :: 0 <= j && j < $i ==> url_ok(haystack[j])) && (found <==> (exists j int :: 0 <= j && j < $i && matchAud(haystack[j], n))) && (forall i int :: 0 <= i && i < $i#1 ==> url_ok(needle[i]) && (exists j int :: 0 <= j && j < len(haystack) && matchAud(haystack[j], needle[i])))
+
+// ---------------------------------------------------------------- abstract store (ghost state)
+//
+// One abstract store stands for whatever the storage interfaces of a provider are backed by. Handlers can
+// change it only through storage-interface calls. Keys are the strings handed to the storage methods.
+
+//@ ghost code_exists : map[string]bool
+//@ ghost code_active : map[string]bool
+//@ ghost code_rid    : map[string]string   // request id of the authorize request stored with the code
+//@ ghost code_client : map[string]string   // client id of that request
+//@ ghost code_req    : map[string]Requester      // the stored request object
+//@ ghost acc_exists  : map[string]bool
+//@ ghost acc_rid     : map[string]string
+//@ ghost acc_client  : map[string]string
+//@ ghost acc_req     : map[string]Requester
+//@ ghost ref_exists  : map[string]bool
+//@ ghost ref_active  : map[string]bool
+//@ ghost ref_rid     : map[string]string
+//@ ghost ref_client  : map[string]string
+//@ ghost ref_acc     : map[string]string   // signature of the access token issued alongside
+//@ ghost ref_req     : map[string]Requester
+//@ ghost stored      : map[V]bool          // request objects owned by the store
+//@ ghost faults      : int                 // number of storage calls that failed unexpectedly so far
+// transactions
+//@ ghost tx_open      : int
+//@ ghost tx_begun     : int
+//@ ghost tx_committed : int
+//@ ghost tx_rolledback : int
+//@ ghost snap_code_active : map[string]bool
+//@ ghost snap_acc_exists  : map[string]bool
+//@ ghost snap_ref_exists  : map[string]bool
+//@ ghost snap_ref_active  : map[string]bool
+
+//@ spec func codes_unchanged() bool = code_exists == old(code_exists) && code_active == old(code_active) && code_rid == old(code_rid) && code_client == old(code_client) && code_req == old(code_req)
+//@ spec func access_unchanged() bool = acc_exists == old(acc_exists) && acc_rid == old(acc_rid) && acc_client == old(acc_client) && acc_req == old(acc_req)
+//@ spec func refresh_unchanged() bool = ref_exists == old(ref_exists) && ref_active == old(ref_active) && ref_rid == old(ref_rid) && ref_client == old(ref_client) && ref_acc == old(ref_acc) && ref_req == old(ref_req)
+//@ spec func formget(v url.Values, key string) string = (key in v && len(v[key]) > 0) ? v[key][0] : ""
+//@ spec func ekind(e error) string = ehead(e).ErrorField
+//@ spec func insl(s []string, x string) bool = exists j int :: 0 <= j && j < len(s) && s[j] == x
+
+// Getters of requests, sessions, clients and configuration are abstract fields: pure functions of the
+// receiver in the current state (assumption: they have no side effects and do not depend on the context).
+//@ pureiface fosite.*Provider.* fosite.Client.* fosite.OpenIDConnectClient.* fosite.ResponseModeClient.* fosite.ClientWithSecretRotation.* fosite.ClientWithCustomTokenLifespans.*
+//@ pureiface fosite.Requester.Get* fosite.AccessRequester.Get* fosite.AuthorizeRequester.Get* fosite.AuthorizeRequester.Is* fosite.AuthorizeRequester.Did* fosite.DeviceRequester.Get*
+//@ pureiface fosite.Session.Get* fosite.ExtraClaimsSession.Get* fosite.AccessResponder.Get* fosite.AuthorizeResponder.Get* fosite.DeviceResponder.Get*
+
+//@ interface Requester.SetID
+//@   sets recv.GetID() = id
+//@ interface Requester.SetRequestedScopes
+//@   sets recv.GetRequestedScopes() = scopes
+//@ interface Requester.SetRequestedAudience
+//@   sets recv.GetRequestedAudience() = audience
+//@ interface Requester.SetSession
+//@   sets recv.GetSession() = session
+//@ interface Requester.GrantScope
+//@   modifies recv.GetGrantedScopes()
+//@   ensures forall x string :: insl(recv.GetGrantedScopes(), x) <==> (insl(old(recv.GetGrantedScopes()), x) || x == scope)
+//@ interface Requester.GrantAudience
+//@   modifies recv.GetGrantedAudience()
+//@   ensures forall x string :: insl(recv.GetGrantedAudience(), x) <==> (insl(old(recv.GetGrantedAudience()), x) || x == audience)
+//@ interface Requester.AppendRequestedScope
+//@   modifies recv.GetRequestedScopes()
+//@   ensures forall x string :: insl(recv.GetRequestedScopes(), x) <==> (insl(old(recv.GetRequestedScopes()), x) || x == scope)
+
+// Sanitize returns a copy that shares everything but the form, which is cut down to the allowed keys.
+//@ interface Requester.Sanitize
+//@   ensures result != nil && fresh(result) && !stored[result]
+//@   ensures result.GetID() == recv.GetID() && result.GetClient() == recv.GetClient() && result.GetSession() == recv.GetSession() && result.GetRequestedAt() == recv.GetRequestedAt()
+//@   ensures result.GetGrantedScopes() == recv.GetGrantedScopes() && result.GetGrantedAudience() == recv.GetGrantedAudience() && result.GetRequestedScopes() == recv.GetRequestedScopes() && result.GetRequestedAudience() == recv.GetRequestedAudience()
+//@   ensures result.GetRequestForm() != nil && fresh(result.GetRequestForm())
+
+//@ interface Session.SetExpiresAt
+//@   sets recv.GetExpiresAt(key) = exp
+//@ interface Session.Clone
+//@   ensures result != nil && fresh(result)
+//@   ensures result.GetSubject() == recv.GetSubject() && result.GetUsername() == recv.GetUsername() && (forall k TokenType :: result.GetExpiresAt(k) == recv.GetExpiresAt(k))
+
+//@ interface AccessResponder.SetAccessToken
+//@   sets recv.GetAccessToken() = token
+//@ interface AccessResponder.SetTokenType
+//@   sets recv.GetTokenType() = tokenType
+//@ interface AccessResponder.SetExtra
+//@   sets recv.GetExtra(key) = value
+//@ interface AccessResponder.SetExpiresIn
+//@ interface AccessResponder.SetScopes
+
+// ---------------------------------------------------------------- C07: effective lifespans
+
+// The override registered for exactly (grant type, token type), as the field names of ClientLifespanConfig say.
+//@ spec func lifespan_ptr(cfg *ClientLifespanConfig, gt GrantType, tt TokenType) *time.Duration = (gt == GrantTypeAuthorizationCode && tt == AccessToken) ? cfg.AuthorizationCodeGrantAccessTokenLifespan : ((gt == GrantTypeAuthorizationCode && tt == IDToken) ? cfg.AuthorizationCodeGrantIDTokenLifespan : ((gt == GrantTypeAuthorizationCode && tt == RefreshToken) ? cfg.AuthorizationCodeGrantRefreshTokenLifespan : ((gt == GrantTypeClientCredentials && tt == AccessToken) ? cfg.ClientCredentialsGrantAccessTokenLifespan : ((gt == GrantTypeImplicit && tt == AccessToken) ? cfg.ImplicitGrantAccessTokenLifespan : ((gt == GrantTypeImplicit && tt == IDToken) ? cfg.ImplicitGrantIDTokenLifespan : ((gt == GrantTypeJWTBearer && tt == AccessToken) ? cfg.JwtBearerGrantAccessTokenLifespan : ((gt == GrantTypePassword && tt == AccessToken) ? cfg.PasswordGrantAccessTokenLifespan : ((gt == GrantTypePassword && tt == RefreshToken) ? cfg.PasswordGrantRefreshTokenLifespan : ((gt == GrantTypeRefreshToken && tt == AccessToken) ? cfg.RefreshTokenGrantAccessTokenLifespan : ((gt == GrantTypeRefreshToken && tt == IDToken) ? cfg.RefreshTokenGrantIDTokenLifespan : ((gt == GrantTypeRefreshToken && tt == RefreshToken) ? cfg.RefreshTokenGrantRefreshTokenLifespan : nil)))))))))))
+
+//@ func (*DefaultClientWithCustomTokenLifespans).GetEffectiveLifespan
+//@   requires c != nil
+//@   ensures [C07.lifespan-table] c.TokenLifespans == nil ==> result == fallback
+//@   ensures [C07.lifespan-table] c.TokenLifespans != nil && lifespan_ptr(c.TokenLifespans, gt, tt) == nil ==> result == fallback
+//@   ensures [C07.lifespan-table] c.TokenLifespans != nil && lifespan_ptr(c.TokenLifespans, gt, tt) != nil ==> result == *lifespan_ptr(c.TokenLifespans, gt, tt)
+
+//@ func GetEffectiveLifespan
+//@   ensures [C07.lifespan-dispatch] implements(c, ClientWithCustomTokenLifespans) ==> result == cast(c, ClientWithCustomTokenLifespans).GetEffectiveLifespan(gt, tt, fallback)
+//@   ensures [C07.lifespan-dispatch] !implements(c, ClientWithCustomTokenLifespans) ==> result == fallback
